@@ -41,6 +41,10 @@ def jobs(tier):
                 ch = scheds2[ci::4]
                 js.append(("job_interleave", dict(_name="2 sessions %s shared_params=%d: schedules %d/4 (%d of %d)" % (mix, shared, ci + 1, len(ch), len(scheds2)),
                                                   roles=list(mix), shared=shared, ops=3, scheds=ch)))
+    for g in ("I1024", "Ed25519"):
+        for cls in "AS":
+            js.append(("job_frame_real", dict(_name="frame condition on the real %s objects, class %s (up to 2 entropy draws)" % (g, cls),
+                                              gname=g, cls=cls)))
     for g in ("toy11", "I1024", "Ed25519"):
         js.append(("job_matrix", dict(_name="session matrix on the plain package: %s (ground)" % g, gname=g)))
     chunks = [scheds3[i::6] for i in range(6)]
@@ -86,6 +90,33 @@ def shared_objects(params_list):
     return objs
 
 
+def _contents(v):
+    return (len(v), tuple(id(x) for x in (v.values() if isinstance(v, dict) else v))[:50])
+
+
+def _function_state(snap, owner, fname, f):
+    """mutable state hidden in a function object: default arguments, keyword defaults, closure cells, attributes"""
+    import types
+    f = getattr(f, "__func__", f)
+    if not isinstance(f, types.FunctionType):
+        return
+    for i, dv in enumerate(f.__defaults__ or ()):
+        if isinstance(dv, (dict, list, set)):
+            snap[(owner, "%s.__defaults__[%d] (container contents)" % (fname, i))] = _contents(dv)
+    for k, dv in (f.__kwdefaults__ or {}).items():
+        if isinstance(dv, (dict, list, set)):
+            snap[(owner, "%s.__kwdefaults__[%s] (container contents)" % (fname, k))] = _contents(dv)
+    for i, cell in enumerate(f.__closure__ or ()):
+        try:
+            cv = cell.cell_contents
+        except ValueError:
+            continue
+        if isinstance(cv, (dict, list, set)):
+            snap[(owner, "%s closure cell %d (container contents)" % (fname, i))] = _contents(cv)
+    for k, dv in f.__dict__.items():
+        snap[(owner, "%s.%s (function attribute)" % (fname, k))] = _contents(dv) if isinstance(dv, (dict, list, set)) else dv
+
+
 def snapshot(objs):
     snap = {}
     for name, o in objs.items():
@@ -98,7 +129,9 @@ def snapshot(objs):
             snap[(name, k)] = v
             if isinstance(v, (dict, list, set)) and not k.startswith("__"):
                 # in-place mutation of a shared container is a write too
-                snap[(name, k + " (container contents)")] = (len(v), tuple(id(x) for x in (v.values() if isinstance(v, dict) else v))[:50])
+                snap[(name, k + " (container contents)")] = _contents(v)
+            if name.startswith(("module ", "class ")) and not k.startswith("__"):
+                _function_state(snap, name, k, v)
     return snap
 
 
@@ -239,6 +272,46 @@ def job_frame(J, cls):
         J.claim(r, "outputs mention only the session's own inputs (foreign symbols: %s)" % foreign, not foreign, cex=cex, oracle="interleave")
         J.claim(r, "equal inputs give equal message and key",
                 _eq_out(dict(msg=w["msg"], key=w["oa"], blob=None), dict(msg=w["msg2"], key=w["oa2"], blob=None)), cex=cex, oracle="interleave")
+
+
+def job_frame_real(J, gname, cls):
+    """the write monitor over every symbolic path of a session on the REAL shipped parameter/group objects (exponent
+    domain / abstract points), including paths on which the first entropy draw is rejected"""
+    from checks import realtier as RT
+
+    def h(ctx):
+        w = RT.make_world(ctx, gname)
+        try:
+            objs = shared_objects([w.params])
+            pw, idA, idB = sym_inputs((2, 1, 1), "s1")
+            log = []
+            s0 = snapshot(objs)
+            a = new_instance(cls, w.params, pw, idA, idB, Entropy("s1ent", max_calls=2))
+            log.append(("constructor", diff(s0, snapshot(objs))))
+            s0 = snapshot(objs)
+            msg = a.start()
+            log.append(("start", diff(s0, snapshot(objs))))
+            s0 = snapshot(objs)
+            b = restore(cls, a, w.params)
+            log.append(("serialize+from_serialized", diff(s0, snapshot(objs))))
+            peer = new_instance(PEER[cls], w.params, pw, idA, idB, Entropy("s2ent", max_calls=1))
+            inbound = peer.start()
+            s0 = snapshot(objs)
+            o = outcome(b.finish, inbound)
+            log.append(("finish", diff(s0, snapshot(objs))))
+            ctx.data["w"] = dict(log=log)
+            return True
+        finally:
+            RT.teardown(w)
+    for r in J.explore(h, max_paths=120):
+        J.reach(r)
+        cex = lambda m: dict(cls=cls, roles=[cls, PEER[cls]], shared=1, sched=[0, 1, 0, 1], ops=2)
+        if r.kind != "ret":
+            J.claim(r, "real %s session runs (%s)" % (gname, type(r.value).__name__), False, cex=cex, oracle="interleave")
+            continue
+        for op, d in r.ctx.data["w"]["log"]:
+            J.claim(r, "real %s: %s writes nothing outside the instance %s" % (gname, op, d[:3] if d else ""), not d,
+                    cex=cex, oracle="interleave")
 
 
 def job_matrix(J, gname):
